@@ -128,10 +128,12 @@ def run(tier):
     run = Run(PROP, tier, 'proof')
     specs.selfcheck()
     h = build()
+    msyn = h.monomorphise(['f32', 'f64'], bound='<S: BaseFloat>', method_syntax='only', soft=True)
     S, inv, meta = facts.extract(PROP, h.src())
-    report_dropped(run, meta)
+    report_dropped(run, meta, h)
     run_specs(run, S, h, custom={'axis_action': check_axis_action, 'axis_action_half': check_axis_action, 'basis_invert': check_basis_invert})
     run.floor('roots', len(run.roots), len(h.specs))
+    run.notes['monomorphic_method_syntax_roots'] = len([n_ for n_ in msyn if n_ in run.roots])
     return run.finish(
         explanation='For angle arguments in Rad and in Deg: Matrix2/Basis2::from_angle equal the counter-clockwise 2-D rotation table (images of the basis vectors read off the composed code); Matrix3/Matrix4/Basis3::from_angle_x/y/z equal the elementary tables, from_axis_angle equals the Rodrigues matrix c I + s [a]x + (1-c) a a^T entry by entry (sin/cos of the radian measure as function symbols), and from_axis_angle about a unit axis equals from_angle_*; Quaternion::from_axis_angle = (cos t/2, a sin t/2) with the half factor exact; the stated action v cos t + (a x v) sin t + a(a.v)(1-cos t) is checked on Matrix3*v, Basis3, Matrix4 (as a direction) and the quaternion (under the double-angle relations) for unit a. Basis2/Basis3 Mul = matrix product, one = identity, invert = matrix inverse panicking exactly on a zero determinant, rotate_point = rotate_vector of the position vector for Basis2, Basis3, Quaternion. Fixing the axis, orthonormality, det = +1 and angle additivity are verified on the spec side.',
         trusted_base=['rustc nightly type checking / trait resolution / MIR construction', 'mirsum abstract interpreter; sin/cos/sin_cos as uninterpreted symbols of the radian measure', 'rules/algebra.py, rules/specs.py (selfcheck)', 'constant pi/180 taken at its exact binary value'],
